@@ -150,3 +150,14 @@ Theorem C01_bam_originator_sends_all : forall key (times : list Z) n b,
   n_snd n' = tdel (n_snd n) key.
 Proof. exact bam_originator_sends_all. Qed.
 Print Assumptions C01_bam_originator_sends_all.
+
+From J1939 Require Import SkelDefs FlowDefs.
+From J1939.gen Require Import SkelGen.
+From J1939P Require Import FlowProofs OrderProofs.
+
+(* "including replies that are processed before the sending call has returned": on skeletons generated from the current
+   source, send_pgn has stored the send session before the RTS goes out and the burst loop has updated the session record
+   before each data frame goes out — on every path *)
+Theorem C01_state_before_send : never_commits_after_send order_send21 /\ never_commits_after_send order_burst21.
+Proof. split; [exact order_send21_ok|exact order_burst21_ok]. Qed.
+Print Assumptions C01_state_before_send.
